@@ -38,6 +38,21 @@ fn pixel(rng: &mut Rng) -> u8 {
     }
 }
 
+struct Trickle<'a> {
+    data: &'a [u8],
+    pos: usize,
+    n: usize,
+}
+impl std::io::Read for Trickle<'_> {
+    fn read(&mut self, buf: &mut [u8]) -> std::io::Result<usize> {
+        self.n += 1;
+        let k = (1 + self.n % 5).min(buf.len()).min(self.data.len() - self.pos);
+        buf[..k].copy_from_slice(&self.data[self.pos..self.pos + k]);
+        self.pos += k;
+        Ok(k)
+    }
+}
+
 pub fn exec(case: &Value) -> Value {
     let mut e = case.clone();
     let op = gs(case, "op").to_string();
@@ -53,6 +68,9 @@ pub fn exec(case: &Value) -> Value {
             let via = case.get("via").and_then(|v| v.as_str()).unwrap_or("parse_pnm");
             let r = if via == "read_pnm" {
                 guard(|| read_pnm(&bytes[..]))
+            } else if via == "read_trickle" {
+                // a reader that hands out one to five bytes per call (pipes, sockets, chained readers)
+                guard(|| read_pnm(Trickle { data: &bytes, pos: 0, n: 0 }))
             } else {
                 guard(|| parse_pnm(bytes.iter().copied()))
             };
@@ -199,14 +217,17 @@ pub fn gen(args: &Args, out: &mut dyn Write) {
         writeln!(out, "{v}").unwrap();
     };
     // hand-picked boundary files
-    let specials: [&[u8]; 16] = [
+    let specials: [&[u8]; 23] = [
         b"P6 0 5 255 ", b"P6 5 0 255 ", b"P6 0 0 255 ", b"P5 0 3 255 ", b"P2 0 2 255 ", b"P3 0 1 255",
         b"P6 65536 65536 255 ", b"P5 65536 65536 255 abc", b"P6 4294967295 4294967295 255 ",
         b"P6 65535 65537 255 x", b"P2 65536 65536 255 1 2 3", b"P3 4294967295 2 255 1 2 3",
         b"P4 8 1 \xAA", b"P1 1 1 1", b"P6 1 1 255", b"P6",
+        // pixel counts between 2^32 / 3 and 2^32: the sample count (3 per pixel) no longer fits 32 bits
+        b"P3 65535 65535 255\n1 2 3", b"P6 65535 65535 255\n123", b"P2 65535 65535 255 1", b"P3 40000 40000 255 1 2 3",
+        b"P3 1431655766 1 255 1 2 3", b"P3 1 1431655766 255 1 2 3", b"P6 46341 46341 255 x",
     ];
     for s in specials {
-        for via in ["parse_pnm", "read_pnm"] {
+        for via in ["parse_pnm", "read_pnm", "read_trickle"] {
             emit(out, json!({"op": "parse", "via": via, "bytes": s}));
         }
     }
@@ -251,7 +272,7 @@ pub fn gen(args: &Args, out: &mut dyn Write) {
                 };
                 for &fmt in fmts {
                     let f = wellformed(&mut rng, fmt, w, h, &pix);
-                    let via = if rng.chance(1, 2) { "parse_pnm" } else { "read_pnm" };
+                    let via = *rng.pick(&["parse_pnm", "read_pnm", "read_trickle", "parse_pnm"]);
                     emit(out, json!({"op": "parse", "via": via, "bytes": f}));
                 }
             }
